@@ -391,6 +391,40 @@ func keptEffectsSeen(c *Check, fis []*FuncInfo) {
 				c.Except("E5 " + key + ": the called function no longer exists in the tree (merged into its callers); nothing to compare")
 				continue
 			}
+			if len(pts) == 0 && strings.HasPrefix(e, "call:") {
+				// the callee's body was merged into this function (both now call the same new helper, or the call was
+				// inlined): every effect the callee itself performed on all successful paths in the reference tree is
+				// performed here on all successful paths
+				q := strings.TrimPrefix(e, "call:")
+				// "internal/target/remote.remoteDelivery.Close" → inventory key "internal/target/remote|remoteDelivery|Close"
+				slash := strings.LastIndex(q, "/")
+				rest := q[slash+1:]
+				parts := strings.Split(rest, ".")
+				switch len(parts) {
+				case 2:
+					q = q[:slash+1] + parts[0] + "||" + parts[1]
+				case 3:
+					q = q[:slash+1] + parts[0] + "|" + parts[1] + "|" + parts[2]
+				}
+				if ce := idx[q]; len(ce) > 0 {
+					all := true
+					for _, x := range ce {
+						xp := occ[x]
+						if len(xp) == 0 {
+							all = false
+							break
+						}
+						if _, skips := r.F.Reach(Query{From: r.Entry(), Inclusive: true, Target: success, Avoid: isPt(xp)}); skips {
+							all = false
+							break
+						}
+					}
+					if all {
+						c.HoldConst("E5", key, fi.Decl.Pos(), true, "")
+						continue
+					}
+				}
+			}
 			if len(pts) == 0 {
 				c.Hold("E5", key, fi.Decl.Pos(), false, "the function no longer performs `"+e+"`, which every successful path performed in the reference tree")
 				continue
